@@ -10,13 +10,13 @@ EXPLANATION = (
     "shred's obligations are structural and are exactly the suite-invisible mutants: (PAR) with feature `parallel`, Stage::execute runs "
     "groups only as items of rayon's for_each over par_iter_mut(groups), members inside; (ROUTE) SendDispatcher::dispatch calls "
     "dispatch_par, whose install closure and the async job call execute, never execute_seq; (POOL) the receiver of install/spawn "
-    "originates from field thread_pool, add_pool stores its argument there, build/build_async use get_or_insert_with(create_thread_pool) "
+    "originates from field thread_pool, add_pool stores its argument there, build/build_async fill the pool slot with create_thread_pool() only when it is empty "
     "and never overwrite a supplied pool, create_thread_pool is ThreadPoolBuilder::new().build() with no thread cap anywhere in the "
     "crate; (SHARE) add_batch gives the inner builder a clone of the outer pool slot before building it; (LOCK) only read locks are held "
     "during dispatch, so nested batch dispatches do not block each other. That all siblings are inside run simultaneously is not decided.")
 ASSUMPTIONS = ["rayon work-stealing runs independent for_each items on idle workers", "std RwLock read locks are shared"]
 TRUSTED = ["rustc nightly MIR construction", "shred-facts driver", "shredlint analyses"]
-TECHNIQUE = 'static: coverage shape of Stage::execute (rayon for_each over whole groups), routing coverage, origin analysis of the pool used by install/spawn, get_or_insert_with rule, thread-cap zero-count with positive example, lock-site inventory'
+TECHNIQUE = 'static: coverage shape of Stage::execute (rayon for_each over whole groups), routing coverage, origin analysis of the pool used by install/spawn, fill-only-if-empty rule on the pool slot (structured evaluation), thread-cap zero-count with positive example, lock-site inventory'
 RULE_TEXT = "one obligation per routing site, pool origin, pool-configuration call and lock site; zero-count classes (thread caps) have positive examples in the probe crate (thorough)"
 
 
